@@ -190,7 +190,9 @@ func (r *runner) step(rc *Recipe) (res stepResult) {
 			nsp = 100
 		}
 	}
-	r.ref.Prev = &PrevCert{Height: pre.Height, Percents: percents, Doubles: doubles, NonSigners: absent, NonSignPct: nsp}
+	resBz, _ := lib.Marshal(results)
+	r.ref.Prev = &PrevCert{Height: pre.Height, Percents: percents, Doubles: doubles, NonSigners: absent, NonSignPct: nsp,
+		Digest: fmt.Sprintf("%x/absent=%x", resBz, absent)}
 	post, err := TakeSnap(r.c)
 	if err != nil {
 		panic(err)
